@@ -498,7 +498,9 @@ def validate_frontmatter(
 
     try:
         parsed = yaml.safe_load(raw_frontmatter)
-    except yaml.YAMLError as e:
+    except Exception as e:  # noqa: BLE001
+        # PyYAML's scalar constructors raise plain ValueError / AttributeError / TypeError for
+        # 2024-99-99, "!!timestamp x", "!!int x" ...: none of them is a yaml.YAMLError
         errors.append(
             ValidationError(
                 code="E_FM_PARSE",
